@@ -244,12 +244,17 @@ class Env:
                     self._bind(p, e, refutable)
             elif i0.get("k") == "Match":
                 # (a, b, c) = match x { P1 => (..), P2 => (..) }  -> per-component match
-                ok = all(strip(a["body"]).get("k") == "Tup" and len(strip(a["body"])["elems"]) == len(pat["pats"])
-                         for a in i0["arms"])
+                def _tup(a):
+                    b = strip(a["body"])
+                    while b.get("k") == "Block" and not b.get("stmts") and b.get("expr") is not None:
+                        b = strip(b["expr"])
+                    return b if b.get("k") == "Tup" and len(b["elems"]) == len(pat["pats"]) else None
+                # an arm that leaves (`_ => return None`) leaves in every component
+                ok = all(_tup(a) is not None or diverges(a["body"]) for a in i0["arms"]) and any(_tup(a) is not None for a in i0["arms"])
                 if ok:
                     for idx, p in enumerate(pat["pats"]):
                         comp = dict(i0)
-                        comp["arms"] = [dict(a, body=strip(a["body"])["elems"][idx]) for a in i0["arms"]]
+                        comp["arms"] = [dict(a, body=_tup(a)["elems"][idx]) if _tup(a) is not None else a for a in i0["arms"]]
                         self._bind(p, comp, refutable)
 
     def _reads_mutable_state(self, init):
@@ -271,6 +276,8 @@ class PK(tuple):
     (compares and hashes like the plain tuple) and the refutable sub-patterns of its fields (`Normal { captured: Some(v), .. }`)"""
     binds = None
     sub = None
+    names = None
+    paths = None
 
 
 class Undecided(Exception):
@@ -297,7 +304,48 @@ def _pk(t, binds):
     return r
 
 
+def pat_paths(p, prefix=()):
+    """{name: projection path} for every name a pattern binds: the path is a tuple of field names / tuple indices (as strings) from
+    the scrutinee down to the bound part (`(Some(a), b)` -> a: ("0", "0"), b: ("1",)).  Names bound inside slice or or-patterns are
+    left out (no fixed projection)."""
+    out = {}
+    if not isinstance(p, dict):
+        return out
+    k = p.get("k")
+    if k == "PBind":
+        out[p["name"]] = prefix
+        if p.get("sub"):
+            out.update(pat_paths(p["sub"], prefix))
+    elif k == "PRef":
+        out.update(pat_paths(p["pat"], prefix))
+    elif k in ("PTupleStruct", "PTuple"):
+        for i, x in enumerate(p.get("pats") or ()):
+            out.update(pat_paths(x, prefix + (str(i),)))
+    elif k == "PStruct":
+        for f in p.get("fields") or ():
+            out.update(pat_paths(f["pat"], prefix + (f["name"],)))
+    return out
+
+
+def project(sc, path):
+    """the normal form of `sc` projected along a pat_paths path (as nested field terms: fold resolves them on known values)"""
+    for fld in path:
+        sc = ("field", sc, fld)
+    return sc
+
+
 def pat_key(p, facts=None):
+    r = _pat_key(p, facts)
+    if isinstance(r, tuple) and isinstance(p, dict) and p.get("k") in ("PTupleStruct", "PTuple", "PStruct", "PRef", "PBind"):
+        paths = pat_paths(p)
+        if paths:
+            if not isinstance(r, PK):
+                r = _pk(r, None)
+            r.paths = paths
+    return r
+
+
+def _pat_key(p, facts=None):
     k = p["k"]
     if k == "PWild":
         return "_"
@@ -333,7 +381,19 @@ def pat_key(p, facts=None):
         return ("tup",) + tuple(pat_key(x, facts) for x in p["pats"])
     if k == "PRef":
         return pat_key(p["pat"], facts)
+    if k == "PSlice":
+        # [a, b @ 1..=3, rest @ .., z]: element keys before / after the rest pattern, the names bound at each position
+        bef, aft = list(p.get("before") or ()), list(p.get("after") or ())
+        r = _pk(("PSlice", tuple(pat_key(x, facts) for x in bef), p.get("mid") is not None, tuple(pat_key(x, facts) for x in aft)), None)
+        r.names = (tuple(_top_name(x) for x in bef), tuple(_top_name(x) for x in aft))
+        return r
     return (k,)
+
+
+def _top_name(p):
+    while p.get("k") == "PRef":
+        p = p["pat"]
+    return p.get("name") if p.get("k") == "PBind" else None
 
 
 def pat_names(p):
@@ -585,6 +645,19 @@ def guards_of(target, root, sym):
                         if s0.get("k") == "SLet" and s0.get("els") is not None and s0.get("init") is not None:
                             out.append(("if", ("let", pat_key(s0["pat"]), sym(s0["init"]), tuple(pat_names(s0["pat"]))), True))
                             continue
+                        # `let x = match e { P1 => v, P2 => exit }` / `match e { P1 => {..}, _ => exit };` : c runs only if an arm
+                        # that does not leave was taken
+                        m0 = s0
+                        if m0.get("k") == "SLet" and m0.get("els") is None and m0.get("init") is not None:
+                            m0 = strip(m0["init"])
+                        elif m0.get("k") in ("SSemi", "SExpr") and isinstance(m0.get("e"), dict):
+                            m0 = strip(m0["e"])
+                        if m0.get("k") == "Match" and m0.get("src") == "Normal" and m0 is not c:
+                            dv = [diverges(a["body"]) for a in m0["arms"]]
+                            if any(dv) and not all(dv):
+                                out.append(("if", ("match", sym(m0["e"]), tuple((pat_key(a["pat"]), sym(a["guard"]) if a.get("guard") else None,
+                                                                                   ("lit", not d_)) for a, d_ in zip(m0["arms"], dv))), True, "exit"))
+                                continue
                         # `if A { .. } else { exit }` : c runs only if A
                         if s0.get("k") == "If" and s0.get("else") is not None and diverges(s0["else"]) and not diverges(s0["then"]):
                             for a_ in conj(sym(s0["cond"])):
@@ -619,7 +692,10 @@ def guards_of(target, root, sym):
                 elif k == "Match":
                     for a in p["arms"]:
                         if c is a["body"]:
-                            out.append(("arm", sym(p["e"]), pat_key(a["pat"]), tuple(pat_names(a["pat"]))))
+                            # the arms before this one (pattern, guard): this arm is taken only if none of them was
+                            earlier = tuple((pat_key(a0["pat"]), sym(a0["guard"]) if a0.get("guard") else None)
+                                            for a0 in p["arms"][:p["arms"].index(a)])
+                            out.append(("arm", sym(p["e"]), pat_key(a["pat"]), tuple(pat_names(a["pat"])), earlier))
                             if a.get("guard"):
                                 for g in conj(sym(a["guard"])):
                                     out.append(("if", g, True))
@@ -663,6 +739,25 @@ def exit_condition(n, sym):
     return None
 
 
+import re as _re_mod
+_STD_INT_CONST = _re_mod.compile(r"<impl ([iu])(8|16|32|64|128|size)>::(MIN|MAX)$")
+
+
+def resolve_std_ints(t):
+    """`i16::MIN`, `u8::MAX` ... as literals (kept out of resolve_consts: several rules compare windows built from `Score::MIN + 1`
+    symbolically)"""
+    if not isinstance(t, tuple) or isinstance(t, PK):
+        return t
+    if len(t) == 2 and t[0] == "const" and isinstance(t[1], str):
+        m_ = _STD_INT_CONST.search(t[1])
+        if m_:
+            sg, bits, which = m_.group(1), m_.group(2), m_.group(3)
+            nb = 64 if bits == "size" else int(bits)
+            lo, hi = (-(1 << (nb - 1)), (1 << (nb - 1)) - 1) if sg == "i" else (0, (1 << nb) - 1)
+            return ("lit", lo if which == "MIN" else hi)
+    return tuple(resolve_std_ints(x) if isinstance(x, tuple) else x for x in t)
+
+
 def resolve_consts(t, F):
     """Replace references to small scalar consts (int/char/bool) by their const-evaluated value."""
     if not isinstance(t, tuple) or F is None:
@@ -683,7 +778,7 @@ def resolve_consts(t, F):
             if arr is not None:
                 return arr
         return t
-    return tuple(resolve_consts(x, F) if isinstance(x, tuple) else x for x in t)
+    return tuple(resolve_consts(x, F) if isinstance(x, tuple) and not isinstance(x, PK) else x for x in t)
 
 
 _W = {"i8": 1, "u8": 1, "i16": 2, "u16": 2, "i32": 4, "u32": 4, "i64": 8, "u64": 8, "usize": 8, "isize": 8, "char": 4, "bool": 1}
@@ -807,6 +902,8 @@ def canon(t):
     """Order-insensitive form: operands of commutative operators sorted, a > b rewritten as b < a."""
     if not isinstance(t, tuple):
         return t
+    if isinstance(t, PK):
+        return t
     t = tuple(canon(x) if isinstance(x, tuple) else x for x in t)
     if t and t[0] == "bin":
         op, a, b = t[1], t[2], t[3]
@@ -896,6 +993,8 @@ class Exec(Sym):
                 return ("var", "@start")
             if key[2] in [v[0] for v in self.setters.values()]:
                 return ("field", ("var", key[1]), "@" + key[2])
+            if not str(key[2]).startswith("@"):
+                return ("field", ("var", key[1]), key[2])      # a real field on a path that did not write it: its old value
         return None
 
     def havoc_loop(self, loop):
@@ -1076,6 +1175,20 @@ class Exec(Sym):
             elif lid is not None and c.endswith("String::push_str"):
                 cur = self.store.get(lid, ("var", "?"))
                 self.store[lid] = str_append(cur, ("s", self.sym(st0["args"][0], d)))
+            elif lid is not None and isinstance(self.store.get(lid), tuple) and self.store[lid][:1] in (("str",), ("if",), ("match",)) and \
+                    c.endswith("::extend") and st0.get("args"):
+                # `s.extend([c1, c2])`: the characters of a literal array, in order
+                a_ = self.sym(st0["args"][0], d)
+                if a_[:1] in (("arr",), ("iter",)):
+                    cur = self.store[lid]
+                    for x_ in a_[1:]:
+                        cur = str_append(cur, ("ch", x_))
+                    self.store[lid] = cur
+                else:
+                    raise Unsupported("String::extend with a source that is not a literal array")
+            elif lid is not None and isinstance(self.store.get(lid), tuple) and self.store[lid][:1] == ("str",) and \
+                    st0["name"] in ("insert", "insert_str", "truncate", "pop", "clear", "retain", "remove", "replace_range", "drain", "extend_from_within"):
+                raise Unsupported("string edited by %s" % st0["name"])       # never drop an edit of the text silently
             elif c in self.recorders:
                 r0 = strip(st0["recv"])
                 if r0.get("k") == "Path" and r0["to"].get("res") == "local":
@@ -1364,7 +1477,7 @@ def fold(t, assume, discr=None, helpers=None, evalcalls=None):
             helpers = None
 
     def f(t):
-        if not isinstance(t, tuple) or not t:
+        if not isinstance(t, tuple) or not t or isinstance(t, PK):
             return t
         if t in assume:
             return f(assume[t])
@@ -1384,6 +1497,8 @@ def fold(t, assume, discr=None, helpers=None, evalcalls=None):
                 return b[1 + int(t[2])]
             if b[0] == "ctor" and t[2].isdigit() and int(t[2]) < len(b[2]):
                 return b[2][int(t[2])]
+            if b[0] == "pos" and t[2] in ("0", "1"):
+                return ("lit", b[1] if t[2] == "0" else b[2])       # Position(row, col)
             return r
         if h == "cast":
             x = f(t[1])
@@ -1395,6 +1510,8 @@ def fold(t, assume, discr=None, helpers=None, evalcalls=None):
                     return ("lit", chr(x[1]))
                 if ty in ("u8",):
                     return ("lit", x[1] & 0xFF)
+                if ty == "i8":
+                    return ("lit", ((x[1] + 128) & 0xFF) - 128)
                 return ("lit", x[1])
             if x[0] == "lit" and isinstance(x[1], str) and len(x[1]) == 1 and (t[2] or "").startswith(("u", "i")):
                 return ("lit", ord(x[1]))
@@ -1477,7 +1594,7 @@ def fold(t, assume, discr=None, helpers=None, evalcalls=None):
             return ("neg", a)
         if h == "let" and len(t) >= 3:
             sc = f(t[2])
-            if sc[0] in ("variant", "lit", "struct", "ctor", "pos") or _decided_tuple(sc):
+            if sc[0] in ("variant", "lit", "struct", "ctor", "pos", "tup") or _decided_arr(sc):
                 try:
                     return ("lit", _pat_matches(t[1], sc))
                 except Undecided:
@@ -1492,8 +1609,7 @@ def fold(t, assume, discr=None, helpers=None, evalcalls=None):
             return ("if", c, f(t[2]), f(t[3]))
         if h == "match":
             sc = f(t[1])
-            if sc[0] in ("variant", "lit", "struct", "ctor", "pos") or _decided_tuple(sc):
-                key = sc[1] if sc[0] != "struct" else sc[1]
+            if sc[0] in ("variant", "lit", "struct", "ctor", "pos", "tup") or _decided_arr(sc):
                 arms_ = list(t[2])
                 for i_, (pk_, g, body) in enumerate(arms_):
                     try:
@@ -1508,6 +1624,15 @@ def fold(t, assume, discr=None, helpers=None, evalcalls=None):
                     if sc[0] == "struct" and isinstance(binds, dict):
                         fv = dict(sc[2])
                         m_ = {("var", nm): fv[fld] for fld, nm in binds.items() if nm and fld in fv}
+                    if sc[0] == "ctor" and isinstance(binds, dict):
+                        m_ = {("var", nm): sc[2][int(fld)] for fld, nm in binds.items() if nm and fld.isdigit() and int(fld) < len(sc[2])}
+                    if sc[0] == "arr":
+                        m_ = _slice_binds(pk_, sc)
+                    for nm_, path_ in (getattr(pk_, "paths", None) or {}).items():
+                        if ("var", nm_) not in m_ and path_:
+                            v_ = f(project(sc, path_))
+                            if not (isinstance(v_, tuple) and v_[:1] == ("field",)):
+                                m_[("var", nm_)] = v_        # resolved on the known value (otherwise the name stays free)
                     if g is not None:
                         gg = f(subst(g, m_) if m_ else g)
                         if gg == ("lit", False):
@@ -1622,6 +1747,9 @@ def fold(t, assume, discr=None, helpers=None, evalcalls=None):
                         return a0 if meth != "rev" else ("iter",) + tuple(reversed(els))
                     if meth == "count" and len(args) == 1:
                         return ("lit", len(els))
+            r_ = _fold_text_call(ck, args)
+            if r_ is not None:
+                return r_
             if ck in CHAR_FNS and args and args[0][0] == "lit" and isinstance(args[0][1], str):
                 return ("lit", CHAR_FNS[ck](args[0][1]))
             if ck in BOOL_CHAR_FNS and args and args[0][0] == "lit" and isinstance(args[0][1], str):
@@ -1742,12 +1870,87 @@ def fold(t, assume, discr=None, helpers=None, evalcalls=None):
             return r_
         if h == "closure":
             return ("closure", t[1], f(t[2]))
-        return (h,) + tuple(f(x) if isinstance(x, tuple) else x for x in t[1:])
+        return (h,) + tuple(f(x) if isinstance(x, tuple) and not isinstance(x, PK) else x for x in t[1:])
 
     r = f(t)
     # an early `return x` anywhere in the evaluated term makes the whole function return x
     er = _find_ret(r)
     return er if er is not None else r
+
+
+_SOME, _NONE = "std::prelude::v1::Some", ("variant", "std::prelude::v1::None")
+
+
+def _opt(v):
+    return _NONE if v is None else ("ctor", _SOME, (v,))
+
+
+def _fold_text_call(ck, args):
+    """the pure text functions a parser is written with, on literal text: the bytes / characters of a `&str`, the k-th element of a
+    fresh iterator over them, lengths, wrapping byte arithmetic.  None = not one of these / not literal."""
+    if not args:
+        return None
+    a0 = args[0]
+    lit_s = a0[0] == "lit" and isinstance(a0[1], str)
+    if lit_s and ck.startswith("str::<impl str>::") and len(args) == 1:
+        m = ck.rsplit("::", 1)[-1]
+        s_ = a0[1]
+        try:
+            b_ = s_.encode("utf-8")
+        except UnicodeError:
+            return None
+        if m == "len":
+            return ("lit", len(b_))
+        if m == "is_empty":
+            return ("lit", len(b_) == 0)
+        if m == "as_bytes":
+            return ("arr",) + tuple(("lit", x) for x in b_)
+        if m == "bytes":
+            return ("iter",) + tuple(("lit", x) for x in b_)
+        if m == "chars":
+            return ("iter",) + tuple(("lit", c) for c in s_)
+        if m == "is_ascii":
+            return ("lit", s_.isascii())
+    if a0[:1] == ("iter",) and "Iterator" in ck:
+        m = ck.rsplit("::", 1)[-1]
+        els = a0[1:]
+        if m == "nth" and len(args) == 2 and args[1][0] == "lit" and isinstance(args[1][1], int):
+            k = args[1][1]
+            return _opt(els[k] if 0 <= k < len(els) else None)
+        if m == "next" and len(args) == 1:
+            return _opt(els[0] if els else None)       # the first element of a *fresh* iterator (stateful uses are numbered by the pre-pass)
+        if m == "last" and len(args) == 1:
+            return _opt(els[-1] if els else None)
+        if m == "len" and len(args) == 1:
+            return ("lit", len(els))
+    if a0[:1] == ("arr",) and ck.startswith("slice::<impl [T]>::"):
+        m = ck.rsplit("::", 1)[-1]
+        els = a0[1:]
+        if m == "len" and len(args) == 1:
+            return ("lit", len(els))
+        if m == "is_empty" and len(args) == 1:
+            return ("lit", not els)
+        if m == "first" and len(args) == 1:
+            return _opt(els[0] if els else None)
+        if m == "last" and len(args) == 1:
+            return _opt(els[-1] if els else None)
+        if m == "get" and len(args) == 2 and args[1][0] == "lit" and isinstance(args[1][1], int) and not isinstance(args[1][1], bool):
+            k = args[1][1]
+            return _opt(els[k] if 0 <= k < len(els) else None)
+        if m in ("iter", "into_iter") and len(args) == 1:
+            return ("iter",) + tuple(els)
+    if ck.startswith("num::<impl u8>::") and len(args) == 2 and all(x[0] == "lit" and isinstance(x[1], int) and not isinstance(x[1], bool) for x in args):
+        m = ck.rsplit("::", 1)[-1]
+        x, y = args[0][1], args[1][1]
+        if m == "wrapping_sub":
+            return ("lit", (x - y) & 0xFF)
+        if m == "wrapping_add":
+            return ("lit", (x + y) & 0xFF)
+        if m == "checked_sub":
+            return _opt(("lit", x - y) if 0 <= x - y <= 255 else None)
+        if m == "checked_add":
+            return _opt(("lit", x + y) if 0 <= x + y <= 255 else None)
+    return None
 
 
 def _ground(t):
@@ -1822,6 +2025,8 @@ def unsuffix(t):
             b = {k: (_NAME_SUFFIX_RE.sub("", v) if isinstance(v, str) else v) for k, v in b.items()}
         r.binds = b
         r.sub = t.sub
+        r.names = t.names
+        r.paths = t.paths
         return r
     if isinstance(t, tuple):
         if len(t) == 2 and t[0] == "var" and isinstance(t[1], str):
@@ -1838,6 +2043,27 @@ def _decided_tuple(sc):
     """a tuple scrutinee whose every component is a value a pattern can be decided against"""
     return isinstance(sc, tuple) and sc[:1] == ("tup",) and len(sc) > 1 and \
         all(isinstance(x, tuple) and (x[0] in ("variant", "lit", "struct", "ctor", "pos") or _decided_tuple(x)) for x in sc[1:])
+
+
+def _decided_arr(sc):
+    """an array / byte slice of known length (its elements are looked at by the slice pattern itself)"""
+    return isinstance(sc, tuple) and sc[:1] == ("arr",)
+
+
+def _slice_binds(pk_, sc):
+    names = getattr(pk_, "names", None)
+    if not (isinstance(pk_, tuple) and pk_[:1] == ("PSlice",) and names and sc[:1] == ("arr",)):
+        return {}
+    els = sc[1:]
+    m = {}
+    for nm, el in zip(names[0], els[:len(names[0])]):
+        if nm:
+            m[("var", nm)] = el
+    if names[1]:
+        for nm, el in zip(names[1], els[len(els) - len(names[1]):]):
+            if nm:
+                m[("var", nm)] = el
+    return m
 
 
 def _pat_matches(pk_, sc):
@@ -1866,7 +2092,34 @@ def _pat_matches(pk_, sc):
         if pk_[0] == "pos" and sc[0] == "pos":
             return tuple(pk_) == tuple(sc)
         if pk_[0] == "tup" and sc[0] == "tup" and len(pk_) == len(sc):
-            return all(_pat_matches(p, x) for p, x in zip(pk_[1:], sc[1:]))
+            # a component that is known and does not match refutes the whole pattern; an unknown one under a refutable
+            # sub-pattern leaves it undecided
+            und = False
+            for p, x in zip(pk_[1:], sc[1:]):
+                if p == "_":
+                    continue
+                if not (isinstance(x, tuple) and x and (x[0] in ("variant", "lit", "struct", "ctor", "pos", "arr") or _decided_tuple(x))):
+                    und = True
+                    continue
+                if not _pat_matches(p, x):
+                    return False
+            if und:
+                raise Undecided()
+            return True
+        if pk_[0] == "PSlice" and len(pk_) == 4 and sc[0] == "arr":
+            els = sc[1:]
+            bef, mid, aft = pk_[1], pk_[2], pk_[3]
+            if len(els) < len(bef) + len(aft) or (not mid and len(els) != len(bef) + len(aft)):
+                return False
+            pairs = list(zip(bef, els[:len(bef)])) + (list(zip(aft, els[len(els) - len(aft):])) if aft else [])
+            for spk, el in pairs:
+                if spk == "_":
+                    continue
+                if not (isinstance(el, tuple) and (el[0] in ("variant", "lit", "struct", "ctor", "pos") or _decided_tuple(el))):
+                    raise Undecided()
+                if not _pat_matches(spk, el):
+                    return False
+            return True
         if pk_[0] == "range" and sc[0] == "lit":
             lo, hi, end = pk_[1], pk_[2], pk_[3]
             try:
@@ -1929,7 +2182,8 @@ def guards_term(guards, rest=("lit", True), skip=None):
         elif x[0] == "if":
             term = ("bin", "&&", x[1] if x[2] else ("not", x[1]), term)
         elif x[0] == "arm" and isinstance(x[1], tuple) and not (x[1][0] == "call" and str(x[1][1]).endswith(("IntoIterator::into_iter", "Iterator::next"))):
-            term = ("match", x[1], ((x[2], None, term), ("_", None, ("lit", False))))
+            earlier = tuple((pk_, g_, ("lit", False)) for pk_, g_ in (x[4] if len(x) > 4 else ()))
+            term = ("match", x[1], earlier + ((x[2], None, term), ("_", None, ("lit", False))))
     return term
 
 
@@ -2018,7 +2272,7 @@ def lift_ifs(t, limit=64):
 
 def subterms(t):
     """Every nested tuple of a normal form (terms, argument tuples, arm tuples...)."""
-    if isinstance(t, tuple):
+    if isinstance(t, tuple) and t:
         yield t
         for x in t:
             if isinstance(x, tuple):
